@@ -397,6 +397,60 @@ def facts_at(body, bb):
     return out
 
 
+def counter_loop(body, L):
+    """`let mut c = S; while c < N { ...; c += 1; }` -> the iterator term of the equivalent `for c in S..N`
+    (an ('agg', 'std::ops::Range', ..) term), or None.  Requires: the loop header tests c < N (or N > c), c has exactly one
+    definition outside the loop and one inside, the inner one is c + 1 and lies on every iteration (dominates the back edges),
+    N is not assigned inside the loop."""
+    h = L['header']
+    blk = body.blocks[h]
+    t = blk['term']
+    if not t or t['k'] != 'switch' or t['discr'].get('k') not in ('copy', 'move') or t['discr']['p']['p']:
+        return None
+    dl = t['discr']['p']['l']
+    cmpv = None
+    for st in blk['stmts']:
+        if st['k'] == 'assign' and st['p']['l'] == dl and not st['p']['p'] and st['rv']['k'] == 'bin' and st['rv']['op'] in ('Lt', 'Gt'):
+            cmpv = st['rv']
+    if cmpv is None:
+        return None
+    a, b = (cmpv['a'], cmpv['b']) if cmpv['op'] == 'Lt' else (cmpv['b'], cmpv['a'])
+    if a.get('k') not in ('copy', 'move') or a['p']['p']:
+        return None
+    r = res(body)
+    # the compared local may be a copy of the counter made in the header
+    c = a['p']['l']
+    ds = r.defs.get(c, [])
+    if len(ds) == 1 and ds[0][1] == 'rv' and ds[0][2]['k'] == 'use' and ds[0][2]['op'].get('k') in ('copy', 'move') and not ds[0][2]['op']['p']['p'] \
+            and ds[0][3] == h:
+        c = ds[0][2]['op']['p']['l']
+        ds = r.defs.get(c, [])
+    whole = [d for d in ds if not d[0]]
+    if len(whole) != 2 or len(ds) != 2:
+        return None
+    inside = [d for d in whole if d[3] in L['body']]
+    outside = [d for d in whole if d[3] not in L['body']]
+    if len(inside) != 1 or len(outside) != 1:
+        return None
+    inc = r.rvalue(inside[0][2], (c,), inside[0][3]) if inside[0][1] == 'rv' else None
+    if inc is None:
+        return None
+    inc = strip_casts(inc)
+    if not (inc[0] == 'bin' and inc[1] == 'Add' and const_val(inc[3]) == 1 and inc[2][0] == 'phi'):
+        return None
+    if not all(body.cfg.dominates(inside[0][3], x) for x, _ in L['back_edges']):
+        return None
+    start = r.rvalue(outside[0][2], (c,), outside[0][3]) if outside[0][1] == 'rv' else None
+    if start is None:
+        return None
+    end = r.operand(b)
+    if b.get('k') in ('copy', 'move'):
+        if any(d[3] in L['body'] for d in r.defs.get(b['p']['l'], [])) and not (
+                len(r.defs.get(b['p']['l'], [])) == 1 and r.defs[b['p']['l']][0][3] == h):
+            return None
+    return ('agg', 'std::ops::Range', None, (('start', start), ('end', end)))
+
+
 def thread_bool(body, bb):
     """`matches!(x, P)` and `a && b` materialise a bool: an arm assigns a constant to a temporary and the join block switches
     on that temporary.  If block bb does only that, return the block the constant leads to; else bb."""
